@@ -2,8 +2,11 @@
 (***************************************************************************)
 (* C03.  How COLRv0 layers and glyf components are derived from a colour   *)
 (* glyph's Paint trees: write_font._colr0_layers / _glyf_ufo walk every    *)
-(* top-level paint with Paint.breadth_first (a FIFO frontier carrying the  *)
-(* accumulated transform) and emit one layer / component per PaintGlyph.   *)
+(* top-level paint with Paint.depth_first (a LIFO frontier carrying the    *)
+(* accumulated transform; Order = "dfs") and emit one layer / component    *)
+(* per PaintGlyph.  Order = "bfs" is the FIFO walk (Paint.breadth_first)   *)
+(* the pinned tree used: TLC then violates ZOrder as soon as a reused copy *)
+(* or a nested group sits inside an opacity group (fixed in /repo).        *)
 (*                                                                         *)
 (* Trees have the shapes the compiler produces: a leaf is a PaintGlyph,    *)
 (* optionally wrapped in ONE transform (shape reuse); an opacity group is  *)
@@ -13,7 +16,8 @@
 (***************************************************************************)
 EXTENDS Integers, Sequences, FiniteSets, TLC, Json, SequencesExt
 
-CONSTANTS MaxLeaves, Xfs     \* e.g. Xfs = {"I", "T"}
+CONSTANTS MaxLeaves, Xfs,    \* e.g. Xfs = {"I", "T"}
+          Order             \* "dfs" (the code) | "bfs" (the pinned tree)
 
 Leaf(i, t) == [k |-> "glyph", id |-> i, t |-> t]
 \* all forests with leaves numbered 1..n in z-order, groups of >= 2 children, nesting depth <= 2
@@ -46,24 +50,25 @@ StartRoot ==    \* for paint in color_glyph.painted_layers: ... root.breadth_fir
     /\ frontier = << >> /\ ri <= Len(roots)
     /\ frontier' = <<[n |-> roots[ri], acc |-> <<>>]>>
     /\ ri' = ri + 1 /\ UNCHANGED <<roots, emitted>>
-Visit ==        \* context = frontier.pop(0); yield; children appended with the accumulated transform
+Push(rest, new) == IF Order = "dfs" THEN new \o rest ELSE rest \o new
+Visit ==        \* context = frontier.pop(); yield; children pushed with the accumulated transform
     /\ frontier # << >>
     /\ LET c == Head(frontier) IN
        IF c.n.k = "glyph" /\ c.n.t # "I"
        THEN \* a reused copy is PaintTransform(PaintGlyph): the wrapper is visited first, its PaintGlyph child is
             \* appended to the END of the frontier with the accumulated transform (so it is emitted after its
             \* later siblings when it sits inside a group)
-            /\ frontier' = Tail(frontier) \o <<[n |-> Leaf(c.n.id, "I"), acc |-> c.acc \o <<c.n.t>>]>>
+            /\ frontier' = Push(Tail(frontier), <<[n |-> Leaf(c.n.id, "I"), acc |-> c.acc \o <<c.n.t>>]>>)
             /\ UNCHANGED emitted
        ELSE IF c.n.k = "glyph"
        THEN /\ emitted' = Append(emitted, [id |-> c.n.id, xf |-> c.acc])
             /\ frontier' = Tail(frontier)
        ELSE IF c.n.k = "group"     \* PaintComposite: children are (source = PaintColrLayers, backdrop = PaintSolid)
-       THEN /\ frontier' = Tail(frontier) \o <<[n |-> [k |-> "layers", ch |-> c.n.ch], acc |-> c.acc],
-                                                [n |-> [k |-> "solid"], acc |-> c.acc]>>
+       THEN /\ frontier' = Push(Tail(frontier), <<[n |-> [k |-> "layers", ch |-> c.n.ch], acc |-> c.acc],
+                                                    [n |-> [k |-> "solid"], acc |-> c.acc]>>)
             /\ UNCHANGED emitted
        ELSE IF c.n.k = "layers"    \* PaintColrLayers: its children in order
-       THEN /\ frontier' = Tail(frontier) \o [i \in DOMAIN c.n.ch |-> [n |-> c.n.ch[i], acc |-> c.acc]]
+       THEN /\ frontier' = Push(Tail(frontier), [i \in DOMAIN c.n.ch |-> [n |-> c.n.ch[i], acc |-> c.acc]])
             /\ UNCHANGED emitted
        ELSE /\ frontier' = Tail(frontier) /\ UNCHANGED emitted      \* the backdrop: nothing to emit
     /\ UNCHANGED <<roots, ri>>
@@ -82,10 +87,9 @@ EachLeafOnce == Done =>
     /\ \A l \in Range(LeavesOf(roots)) :
          Cardinality({j \in DOMAIN emitted : emitted[j].id = l.id}) = 1
          /\ \E j \in DOMAIN emitted : emitted[j].id = l.id /\ emitted[j].xf = (IF l.t = "I" THEN <<>> ELSE <<l.t>>)
-\* C03 (image claim, sources WITHOUT group opacity): layers come out in source z-order.
-\* Inside an opacity group the breadth-first walk emits a reused copy (wrapper visited first, its PaintGlyph queued
-\* behind the later siblings) and the leaves of nested groups out of z-order: TLC shows it with Depth <= 1; the
-\* property does not claim the image for sources with group opacity, only that each outline is placed once.
+\* C03 / C06: layers come out in source z-order - for every forest when the walk is depth-first; the FIFO walk only
+\* guarantees it for sources without group opacity (Depth = 0)
+ZOrder == Done => \A j \in DOMAIN emitted : emitted[j].id = j
 ZOrderWhenFlat == (Done /\ Depth(roots) = 0) => \A j \in DOMAIN emitted : emitted[j].id = j
 
 RECURSIVE NodeJ(_)
